@@ -44,6 +44,8 @@ Record cov_case := mkCov {
 
 Definition check_cov (T : templates) (c : cov_case) : list nat :=
   let a := cc_args c in
+  (* the freshly introduced symbols (effect symbol, statistic symbols) are not part of the model function *)
+  let syms := diffp (cc_syms c) (fresh_names a) in
   let ref_envs := map (fun m => set_env m (a_cov a) (cc_ref c)) (cc_envs c) in
   let all_envs := cc_envs c ++ ref_envs in
   (* 1: hand model of apply / create_effect_statement / add_covariate_effect with the regenerated templates *)
@@ -52,13 +54,13 @@ Definition check_cov (T : templates) (c : cov_case) : list nat :=
   | None => [1]
   end ++
   (* 11: P_after = P_before op documented_effect(cov), everything downstream consistent *)
-  tag3 (oprogs_agree 2 all_envs (cc_syms c) (spec_covariate_effect a (cc_before c)) (cc_after c)) 11 ++
+  tag3 (oprogs_agree 2 all_envs syms (spec_covariate_effect a (cc_before c)) (cc_after c)) 11 ++
   (* 12 / 13: at the reference value the extended model is the original model *)
-  tag3 (progs_agree 2 ref_envs (cc_syms c) (cc_before c) (cc_after c))
+  tag3 (progs_agree 2 ref_envs syms (cc_before c) (cc_after c))
        (match a_op a with OpMul => 12 | OpAdd => 13 end) ++
   (* 14: removing the extension restores the previous function *)
   match cc_removed c with
-  | Some r => tag3 (progs_agree 2 all_envs (cc_syms c) (cc_before c) r) 14
+  | Some r => tag3 (progs_agree 2 all_envs syms (cc_before c) r) 14
   | None => []
   end ++
   (* 15: the centring statistic is the median of the per-individual medians / mean of means of the dataset *)
